@@ -14,8 +14,9 @@ Writes(e) == e.op \in {"open_w", "move_to", "mkdir", "remove"}
 \* touched, nothing follows but that same step (shutil.move is reported twice), moving the HTML
 \* resource folder, and the removal of the temporary directories
 C18_TargetTouchedLast(x, ev, pos) ==
+  \* (an audit event is an ATTEMPT: the move of a missing converter output is recorded and then fails, so the
+  \* clause constrains the order only; that a failed export left the target as it was is C18_FailureAtomic)
   (pos <= Len(ev) /\ ev[pos].where = "target" /\ Writes(ev[pos])) =>
-     /\ x.outcome = "returned"
      /\ \A j \in (pos + 1)..Len(ev) : \/ ev[j].where = "target"
                                        \/ (ev[j].where = "beside" /\ ev[j].res)
                                        \/ ev[j].op = "remove"
@@ -35,6 +36,8 @@ C18_Raises(x, ev, pos) ==
   (pos = Len(ev) + 1) =>
      /\ (x.conv \in {"raise_before", "raise_after"} /\ x.converter = "stub" /\ x.reached_convert) => (x.outcome = "raised" /\ x.exc = "ConverterBoom")
      /\ (x.conv \in {"ret_list", "ret_none", "ret_str"} /\ x.converter = "stub" /\ x.reached_convert) => (x.outcome = "raised" /\ x.exc = "TypeError")
+     /\ (x.conv = "ret_missing" /\ x.converter = "stub" /\ x.reached_convert) => x.outcome = "raised"
+     /\ (x.conv \in {"raise_before", "raise_after", "silent"} /\ x.converter \in {"real", "onpath"} /\ x.reached_convert) => (x.outcome = "raised" /\ x.exc = "RuntimeError")
      /\ (x.converter = "default" /\ x.fault = 0 /\ ~x.fs_fired) => (x.outcome = "raised" /\ x.exc = "FileNotFoundError")
      /\ (x.fault # 0 /\ x.flavour = "base" /\ x.fault_fired) => (x.outcome = "raised" /\ x.exc = "InjectedBase")
      /\ (x.fsfault # 0 /\ x.outcome = "raised") => x.exc = "InjectedOSError"
